@@ -446,10 +446,15 @@ func scriptsFromRanges(ranges [][2]rune) ScriptSet {
 		}
 
 		if indexS >= LR {
-			// the incomming ranges are higher than known scripts :
-			// add Unknown and break early
-			out.insert(language.Unknown)
-			break
+			// the last known script has been reached
+			if end > language.ScriptRanges[LR-1].End {
+				// the incomming ranges are higher than known scripts :
+				// add Unknown and break early
+				out.insert(language.Unknown)
+				break
+			}
+			// the last script item may also intersect the next ranges
+			indexS = LR - 1
 		}
 	}
 
